@@ -8,6 +8,7 @@ import (
 	"fmt"
 	"io"
 	"net/textproto"
+	"strconv"
 	"strings"
 
 	"storj.io/drpc/drpcerr"
@@ -761,5 +762,82 @@ func (g gen) serveCases() {
 	}
 	for _, rq := range big {
 		g.serveOne(rq, "big")
+	}
+	g.errLimitCases()
+}
+
+// serveDirect: one exchange evaluated by the direct oracles only (no model case: the request would
+// cost the model driver seconds).
+func (g gen) serveDirect(rq request, class string) {
+	o := g.o
+	out := serve(rq)
+	checkOutcome(o, rq, out)
+	kind := "twirp"
+	if docSelect(rq.ct).grpc {
+		kind = "grpcweb"
+	}
+	res := "ok"
+	if out.h.ret != nil {
+		res = "failed"
+	}
+	o.Stat("serve:" + class + ":" + kind + ":" + res)
+}
+
+// errLimitCases: failed RPCs whose error text brings every quantity the response derives from it
+// (the text itself, the grpc-web trailer block "grpc-status: S\r\ngrpc-code: C\r\ngrpc-message: T\r\n",
+// the Twirp JSON body) to the 4 MiB limit -1 / +0 / +1. The statement: the status is non-zero iff the RPC
+// failed whatever the error text, and limits reject, never truncate -- so the response must still carry
+// the handler's messages, ONE trailer frame / error body, the failure status and the whole text.
+// Sizes go to the model in the compact `zXX*N` syntax, and only a handful of them (each costs the
+// driver 1-3 s); all of them are evaluated by the direct oracles.
+func (g gen) errLimitCases() {
+	o := g.o
+	r := o.Rand
+	cts := []string{"application/grpc-web+proto", "application/grpc-web-text+proto", "application/proto", "application/json"}
+	if o.Thorough {
+		cts = append(cts, "application/grpc-web+json", "application/grpc-web-text+json", "text/plain")
+	}
+	chains := [][]node{nil, {{kind: 'n', code: 12}}, {{kind: 'w'}, {kind: 't', s: "not_found"}}}
+	for ci, ct := range cts {
+		chain := chains[(ci+r.Intn(len(chains)))%len(chains)]
+		// the trailer block without the text, as documented (status and code come from the error's chain)
+		probe := errDesc{msg: str(""), chain: chain}.build(false)
+		status := strconv.FormatUint(drpcerr.Code(probe), 10)
+		if status == "0" {
+			status = "2"
+		}
+		overhead := len("grpc-status: "+status+"\r\n") + len("grpc-code: "+drpchttp.VerifGetCode(probe)+"\r\n") + len("grpc-message: \r\n")
+		type sz struct {
+			what string
+			n    int
+		}
+		var sizes []sz
+		for d := -1; d <= 1; d++ {
+			sizes = append(sizes, sz{fmt.Sprintf("block=limit%+d", d), maxSize - overhead + d}, sz{fmt.Sprintf("text=limit%+d", d), maxSize + d})
+		}
+		if o.Thorough {
+			sizes = append(sizes, sz{"text=2*limit", 2 * maxSize}, sz{"block=limit-framehdr", maxSize - overhead - 5},
+				sz{"text=random-near-limit", maxSize - 200 + r.Intn(400)})
+		}
+		for _, z := range sizes {
+			c := byte('a' + r.Intn(26))
+			txt := fill(c, z.n)
+			if r.Intn(3) == 0 { // a forged trailer line in the middle of the long text (same length)
+				inj := "\r\ngrpc-status: 0\r\n"
+				k := (z.n - len(inj)) / 2
+				txt = append(append(fill(c, k), str(inj)...), fill(c, z.n-len(inj)-k)...)
+			}
+			msgs := [][]blob{nil, {str("first")}, {str("first"), str("second"), str("")}}[r.Intn(3)]
+			rq := request{ct: ct, sc: script{msgs: msgs, stop: r.Intn(2) == 0, result: errDesc{msg: txt, chain: chain}}}
+			o.Stat("errlimit:" + z.what)
+			// model: the trailer block exactly at the limit (grpc-web), the text exactly at the limit (Twirp)
+			p := docSelect(ct)
+			// (quick tier: binary grpc-web and Twirp only; the text mode costs the driver twice the memory)
+			if (p.grpc && z.what == "block=limit+0" || !p.grpc && z.what == "text=limit+0") && (!p.text || o.Thorough) {
+				g.serveOne(rq, "errlimit")
+			} else {
+				g.serveDirect(rq, "errlimit")
+			}
+		}
 	}
 }
